@@ -43,6 +43,13 @@ CHECKS = {
                 note="oracle = sanitizers + libstdc++ assertions + process status; pools are finite (values outside them are not covered); "
                      "signature of a finding = (operator signature, value-independent crash class)",
                 technique="exhaustive enumeration of operator signatures x finite boundary pools with sanitizers as oracle"),
+    "C10": dict(level="fault_enumeration", ref="3/C10",
+                text="for each of the six textual front ends: all strings up to length n over the scanners' branch characters, every prefix and "
+                     "suffix-truncation and every single-token mutation of a corpus of valid inputs, #define graphs with self/mutual "
+                     "recursion, stray directives and nesting ladders, in forked ASan/UBSan children with a watchdog; oracle: terminates, "
+                     "result or error diagnostic, no sanitizer report / escaped exception, identical result on a second run",
+                note="finite alphabets and corpus; time bound is a generous constant per input size, nesting depth <= 300 (deeper nesting is quadratic, see DESIGN limits)",
+                technique="exhaustive enumeration of short inputs, truncation points and single-token faults with sanitizers and a watchdog as oracle"),
 }
 
 PENDING_REASON = "check not built yet in this round (planned, see DESIGN.md section 3)"
